@@ -7,7 +7,8 @@
    distinguishing word over the atoms `f k`; lib/regex2coq.py turns it into a concrete string. *)
 From RelationAlgebra Require Import lattice monoid kleene kat_tac lang.
 From Coq Require Import NArith.
-From Sophia.C09 Require Import Model Rfc3987 Eval Lang.
+From Sophia.C09 Require Import Regex Rfc3987 Eval Lang.
+From Sophia.gen Require Import RegexSrc.
 
 Section s.
   Context `{L : monoid.laws} `{Hl : BKA ≪ l} (n : ob X) (f : N -> X n n).
